@@ -345,6 +345,7 @@ pub fn check(case: &Case, st: &mut Stats) -> CheckResult {
   // parse: tree-sitter's own reuse diverged (known finding); searches are not compared then.
   let mut ts_diverged: Option<Fail> = None;
   let mut diverged_now = false;
+  let mut uncompared_search = false;
   let lines0 = model.matches('\n').count();
   let mut nontrivial = false;
   for (i, step) in case.steps.iter().enumerate() {
@@ -353,6 +354,13 @@ pub fn check(case: &Case, st: &mut Stats) -> CheckResult {
     match step {
       Step::Edit { pos, del, ins } => {
         if pos + del > model.len() || !model.is_char_boundary(*pos) || !model.is_char_boundary(pos + del) {
+          if uncompared_search {
+            // an earlier pattern step ran on a text with syntax errors: there the edited document
+            // may propose other edits than the fresh parse the generator used (not compared, the
+            // property speaks about error-free texts), so the generated offsets no longer fit
+            st.discard("history left the generated text after a search on a text with errors");
+            return Ok(());
+          }
           fail!("bad-case", "step {i}: edit out of range");
         }
         apply_model(&mut model, *pos, *del, ins);
@@ -403,6 +411,9 @@ pub fn check(case: &Case, st: &mut Stats) -> CheckResult {
           }
         } else {
           st.label("search_on_error_text_not_compared");
+          if got != edits {
+            uncompared_search = true;
+          }
         }
         if !edits_applicable(&model, &got) {
           // overlapping / out-of-range edits are C06's subject; this history cannot continue
